@@ -9,7 +9,7 @@ import z3
 from engine import smt, pysym, spec, dtwh
 from engine.pysym import SReal, Explorer
 from engine.smt import INF, ER
-from engine.runner import jnum, unj
+from engine.runner import jnum, unj, active_regions
 
 ID = 'C02'
 ENGINE = 'IRSYM + PYSYM'
@@ -42,12 +42,27 @@ EXPLANATION = 'bounded symbolic equivalence checking Python engine vs C engine (
 
 
 def _grid(r, c, tier, rnd, ndim):
+    out = _grid0(r, c, tier, rnd, ndim)
+    act = active_regions(ID)
+    if 'F02-mld0' in act:
+        out = [o for o in out if not (o['mld'] == 0 and r != c)]
+    if 'F02-prune-invalid' in act:
+        out = [o for o in out if not (o['prune'] and o['pen'] and r != c)]
+    return out
+
+
+def _grid0(r, c, tier, rnd, ndim):
     out = []
     big = 4 if tier == 'quick' else 5
     nofork_ok = (r <= big and c <= big) if ndim == 1 else (r <= 3 and c <= 3)
-    fork_ok = (r * c <= 9 if tier == 'quick' else r * c <= 12) if ndim == 1 else (r * c <= (4 if tier == 'quick' else 9))
-    step_ok = fork_ok and (r * c <= (6 if tier == 'quick' else 9))
+    fork_ok = (r * c <= 6 if tier == 'quick' else r * c <= 12) if ndim == 1 else (r * c <= (4 if tier == 'quick' else 9))
+    step_ok = fork_ok and (r * c <= (4 if tier == 'quick' else 9))
+
     base = {'pen': False, 'psi': None, 'step': False, 'md': False, 'prune': False, 'ub': False, 'mld': None, 'window': None}
+    if tier == 'quick' and ndim == 1 and r == 3 and c == 3:
+        out.append(dict(base, md=True, pen=True))
+        out.append(dict(base, prune=True, window=2))
+        out.append(dict(base, ub=True))
     if nofork_ok:
         wins = dtwh.windows(r, c)
         psis = dtwh.psi_options(r, c, tier, rnd, nrandom=3)
@@ -78,6 +93,11 @@ def _grid(r, c, tier, rnd, ndim):
             out.append(dict(base, window=w, ub=True))
             out.append(dict(base, window=w, ub=True, pen=True))
     return out
+
+
+def prepare(tier):
+    from engine import irsym
+    irsym.prepare()
 
 
 def tasks(tier, seed):
